@@ -175,6 +175,13 @@ P("C18",
   units=[
    U("c18.blocklist", "c18", "TestBlocklist", "Blocked(ip) == linear scan over the list in force after every reload", Q(30000, 4), T(4000000), min_nontrivial_frac=0.3),
    U("c18.addrlist", "c18", "TestAddrList", "addrlist push/pop/reset vs bounded-priority-set model", Q(20000, 4), T(2000000), min_nontrivial_frac=0.3),
+   U("c18.session", "c18", "TestSession",
+     "a real leeching session that fetched a generated blocklist (/32 and /16 rules around the harness's private addresses, comments, junk lines) from a scripted HTTP server: "
+     "2-8 listeners on blocked / unblocked addresses announced by hand, in a tracker reply and in a ut_pex message; 0-4 HTTP/UDP trackers on blocked / unblocked addresses; 0-4 "
+     "scripted peers dialing in from blocked / unblocked addresses; the three enable switches generated; optionally a reload that adds rules, then new listeners; optionally two "
+     "listeners on one address. A listener / tracker inside the list never sees a connection or request, an incoming connection from inside the list never gets a handshake, "
+     "never two simultaneous connections to one IP; non-trivial = something was blocked and every unblocked twin was contacted",
+     Q(64, 16, 900), T(2400, 16), shrinktime="30s"),
   ])
 
 P("C15",
